@@ -599,6 +599,12 @@ func init() {
 	V("Sleep", func(st *State, g *Goroutine, fr *Frame, fn *ssa.Function, args []Value) (Value, status) {
 		return st.sleep(g, args[0])
 	})
+	V("TimeNow", func(st *State, g *Goroutine, fr *Frame, fn *ssa.Function, args []Value) (Value, status) {
+		return st.timeValue(st.now), stNext
+	})
+	V("Until", func(st *State, g *Goroutine, fr *Frame, fn *ssa.Function, args []Value) (Value, status) {
+		return st.subV(args[0].(Agg)[1], st.now), stNext
+	})
 	V("NowNs", func(st *State, g *Goroutine, fr *Frame, fn *ssa.Function, args []Value) (Value, status) {
 		return st.now, stNext
 	})
@@ -762,7 +768,10 @@ func init() {
 			return nil, st.block(g, "rwmutex lock")
 		}
 		st.setSlot(p.obj, p.off, uint64(1))
+		// happens-before of a read-write lock: a writer is ordered after every earlier writer (clock at off) and
+		// every earlier reader (clock at off+4); readers are ordered after writers only, not after each other
 		st.hbAcquire(p.obj, p.off)
+		st.hbAcquire(p.obj, p.off+4)
 		return nil, stNext
 	})
 	N("(*sync.RWMutex).Unlock", func(st *State, g *Goroutine, fr *Frame, fn *ssa.Function, args []Value) (Value, status) {
@@ -798,7 +807,7 @@ func init() {
 		if p.obj.slots[p.off+4].(uint64) == 0 {
 			st.rtPanic("sync: RUnlock of unlocked RWMutex")
 		}
-		st.hbRelease(p.obj, p.off)
+		st.hbRelease(p.obj, p.off+4)
 		st.setSlot(p.obj, p.off+4, p.obj.slots[p.off+4].(uint64)-1)
 		return nil, stNext
 	})
